@@ -31,7 +31,7 @@ pub static PROP: Prop = Prop {
         "slot knowledge comes from the hooked index function of the real cache (and from size 1 without any hook); synthetic instants are monotone",
     ],
     profiles: Profiles::Ship,
-    cases: |t| t.pick(16_000, 400_000),
+    cases: |t| t.pick(60_000, 400_000),
     budget_s: |t| t.pick(40, 400),
     run,
     min_nontrivial: 200,
